@@ -148,7 +148,8 @@ class C28(SchedProp):
         any_output = bool(b) and any(a[3] != 0 for pre in b[0]['pre'] for a in pre if a[:3] == [1, 'a', 'succeeded'])
         unpooled = [1, 'e'] in raws[1]['obs'][-1]['xt']['now']
         mode = self._probe_row_insert_mode()
-        self.flags = {'anyOutput': any_output, 'triggerUnpooled': unpooled, 'rowInsertMode': mode}
+        unit = self._probe_unit_flags()
+        self.flags = dict({'anyOutput': any_output, 'triggerUnpooled': unpooled, 'rowInsertMode': mode}, **unit)
         tf = {True: 'true', False: 'false'}
         return {'TrigFlags.lean': (
             '/- GENERATED by harness/props/c28.py translate() from the live source. Do not edit. -/\n'
@@ -162,6 +163,15 @@ class C28(SchedProp):
             '/-- `_load_historical_outputs`, rows overlap the flows of the proxy but none has exactly its flows: fresh rows\n'
             'are queued never (0) / always (1) / unless the proxy is a finished, complete instance not to be spawned (2) -/\n'
             f'def rowInsertMode : Nat := {mode}\n'
+            '/-- `queue_or_trigger` returns early for a proxy already waiting on job preparation -/\n'
+            f'def qotSkipsPrepped : Bool := {tf[unit["qotSkipsPrepped"]]}\n'
+            '/-- `release_held_active_task` queues through `queue_if_ready` -/\n'
+            f'def releaseQueueIfReady : Bool := {tf[unit["releaseQueueIfReady"]]}\n'
+            '/-- `_remove_matched_tasks`: DB queue written before the first id / after each id; an active proxy in none of\n'
+            'the given flows does not end the handling of its id -/\n'
+            f'def rmFlushFirst : Bool := {tf[unit["rmFlushFirst"]]}\n'
+            f'def rmFlushEach : Bool := {tf[unit["rmFlushEach"]]}\n'
+            f'def rmEraseUnmatched : Bool := {tf[unit["rmEraseUnmatched"]]}\n'
             'end CylcModel.TrigFlags\n')}
 
     @staticmethod
@@ -196,6 +206,69 @@ class C28(SchedProp):
         except Exception as exc:
             raise Infra(f'C28 probe of _load_historical_outputs failed: {exc!r}')
         return 0 if not unfinished else 1 if finished else 2
+
+    @staticmethod
+    def _probe_unit_flags():
+        """Call the live queue_or_trigger / release_held_active_task / _remove_matched_tasks on stand-in objects and
+        read the behaviour off the calls they make."""
+        from unittest.mock import MagicMock
+        from cylc.flow.task_pool import TaskPool
+        from cylc.flow import commands
+        try:
+            # queue_or_trigger on a proxy that is already waiting on job preparation
+            pool, itask = MagicMock(), MagicMock()
+            itask.waiting_on_job_prep = True
+            itask.state.is_queued = False
+            pool.task_queue_mgr.push_task_if_limited.return_value = False
+            pool.count_active_tasks.return_value = ({}, [])
+            TaskPool.queue_or_trigger(pool, itask)
+            qot = not pool.tasks_to_trigger_now.add.called
+            # release_held_active_task on a held proxy that is ready to run
+            pool, itask = MagicMock(), MagicMock()
+            itask.state_reset.return_value = True
+            itask.state.is_runahead = False
+            itask.is_ready_to_run.return_value = True
+            TaskPool.release_held_active_task(pool, itask)
+            qir = bool(pool.queue_if_ready.called) and not pool.queue_task.called
+            # _remove_matched_tasks on one id whose pooled proxy is in none of the given flows
+            trace = []
+            schd = MagicMock()
+            active = MagicMock()
+            active.match_flows.return_value = set()
+            schd.pool._get_task_by_id.side_effect = lambda rid: (trace.append('get'), active)[1]
+            schd.workflow_db_mgr.process_queued_ops.side_effect = lambda: trace.append('flush')
+            schd.workflow_db_mgr.remove_task_from_flows.side_effect = (
+                lambda *a: (trace.append('erase'), set())[1])
+            schd.pool.compute_runahead.return_value = False
+            tid = MagicMock()
+            tid.relative_id = '1/a'
+            tid.__getitem__.side_effect = lambda k: {'task': 'a', 'cycle': '1'}[k]
+            saved = (commands.generate_graph_children, commands.get_point)
+            commands.generate_graph_children = lambda tdef, point: {}
+            commands.get_point = lambda p: p
+            try:
+                commands._remove_matched_tasks(schd, {tid}, {2}, warn_unremovable=False)
+                # ... and on one id that is not in the pool
+                trace2 = []
+                schd.pool._get_task_by_id.side_effect = lambda rid: (trace2.append('get'), None)[1]
+                schd.workflow_db_mgr.process_queued_ops.side_effect = lambda: trace2.append('flush')
+                schd.workflow_db_mgr.remove_task_from_flows.side_effect = (
+                    lambda *a: (trace2.append('erase'), set())[1])
+                commands._remove_matched_tasks(schd, {tid}, {2}, warn_unremovable=False)
+            finally:
+                commands.generate_graph_children, commands.get_point = saved
+        except Exception as exc:
+            raise Infra(f'C28 unit probes failed: {exc!r}')
+        if 'get' not in trace or 'get' not in trace2 or 'erase' not in trace2:
+            raise Infra(f'C28 probe of _remove_matched_tasks: unexpected call traces {trace} {trace2}')
+        k, k2 = trace.index('get'), trace2.index('get')
+        return {
+            'qotSkipsPrepped': qot,
+            'releaseQueueIfReady': qir,
+            'rmFlushFirst': 'flush' in trace2[:k2],
+            'rmFlushEach': 'flush' in trace2[trace2.index('erase'):],
+            'rmEraseUnmatched': 'erase' in trace[k:],
+        }
 
     def corpus(self):
         return [{'id': 'c28-' + k, 'flow': v[0], 'seed': 0, 'opts': {}, 'policy': {'obs_db': True}, 'ops': v[1],
